@@ -321,6 +321,7 @@ fn shard_main<C: Check>(check: &C, tier: Tier, seed: u64, shard: usize, nshards:
         let strat = check.strategy(tier);
         let isolate = check.isolate();
         let accref = RefCell::new(&mut acc);
+        let first_failure: RefCell<Option<FailRec>> = RefCell::new(None);
         let res = runner.run(&strat, |case| {
             if isolate {
                 let _ = std::fs::write(&journal, serde_json::to_vec(&case).unwrap_or_default());
@@ -330,19 +331,41 @@ fn shard_main<C: Check>(check: &C, tier: Tier, seed: u64, shard: usize, nshards:
                 Ok(()) => Ok(()),
                 Err(f) => {
                     a.frozen = true; // shrinking re-runs the closure: stop counting
+                    let mut ff = first_failure.borrow_mut();
+                    if ff.is_none() {
+                        *ff = Some(FailRec { case: serde_json::to_value(&case).unwrap_or(Value::Null), signature: f.signature.clone(), message: f.message.clone() });
+                    }
                     Err(TestCaseError::fail(f.signature))
                 }
             }
         });
         drop(accref);
+        let first_failure = first_failure.into_inner();
         match res {
             Ok(()) => {}
             Err(TestError::Fail(_, minimal)) => {
-                let f = match guarded(|| check.run(&minimal)) {
-                    Ok(o) => o.fail.unwrap_or(Failure { signature: "unstable".into(), message: "minimal case no longer fails when re-run (non-deterministic oracle?)".into() }),
-                    Err(p) => Failure { signature: "panic".into(), message: p },
-                };
-                acc.failure = Some(FailRec { case: serde_json::to_value(&minimal).unwrap(), signature: f.signature, message: f.message });
+                // re-run the shrunk case for its explanation; a schedule-dependent failure may not
+                // reproduce on the shrunk case every time: then report the originally failing case
+                let mut fin = None;
+                for _ in 0..3 {
+                    match guarded(|| check.run(&minimal)) {
+                        Ok(o) => {
+                            if let Some(f) = o.fail {
+                                fin = Some(f);
+                                break;
+                            }
+                        }
+                        Err(p) => {
+                            fin = Some(Failure { signature: "panic".into(), message: p });
+                            break;
+                        }
+                    }
+                }
+                acc.failure = Some(match (fin, first_failure) {
+                    (Some(f), _) => FailRec { case: serde_json::to_value(&minimal).unwrap(), signature: f.signature, message: f.message },
+                    (None, Some(ff)) => FailRec { message: format!("{} (the shrunk case did not fail again when re-run: schedule-dependent; this is the originally generated failing case)", ff.message), ..ff },
+                    (None, None) => FailRec { case: serde_json::to_value(&minimal).unwrap(), signature: "unstable".into(), message: "minimal case no longer fails when re-run".into() },
+                });
             }
             Err(TestError::Abort(r)) => {
                 eprintln!("shard {shard}: proptest aborted: {r}");
